@@ -390,6 +390,8 @@ package sftp
 // (every entry of every NAME batch is decoded: the per-batch counter of entries still to be visited is 0 whenever the
 //  client asks for the next batch)
 //@   requires ctx != nil
+//@   alloc-bound 32*ghost.kept + 4096
+// (C08 / C20: memory for the listing grows with the entries actually decoded, never with a count field of the reply)
 
 //@ func (*Client).opendir
 //@   assert before call (*clientConn).sendPacket#1: typeis(arg3, *sshFxpOpendirPacket) && arg3.(*sshFxpOpendirPacket).ID == id && arg3.(*sshFxpOpendirPacket).Path == path
